@@ -185,6 +185,7 @@ def s1_consumer(src, shape):
     mode = MODES[src.choice("cluster_mode", 3)]
     stop_at = [0.0, 0.003, 0.006, 0.02, 0.15, 0.5, 1.3][src.choice("stop_at", 7)]
     mode_at = [0.0, 0.004, 0.1][src.choice("mode_at", 3)]
+    reassign = src.choice("assignment_replaced_before_stop", 3)  # 0 never, 1 once, 2 twice (assign() called again)
     cluster = simkafka.Cluster(nodes=(0, 1), topics={"t": 1})
     conssim.fill_log(cluster, ("t", 0), shape)
     res = {}
@@ -210,7 +211,10 @@ def s1_consumer(src, shape):
             at = asyncio.ensure_future(app())
             t0 = loop.time()
             loop.call_later(mode_at, _apply_mode, cluster, mode)
-            await asyncio.sleep(stop_at)
+            for _ in range(reassign):
+                await asyncio.sleep(stop_at / (reassign + 1))
+                c.assign([conssim.TP0])
+            await asyncio.sleep(stop_at / (reassign + 1))
             t1 = loop.time()
             st = asyncio.ensure_future(c.stop())
             done, _ = await asyncio.wait([st], timeout=60)
@@ -234,7 +238,7 @@ def s1_consumer(src, shape):
         vloop.run(main, max_vtime=400)
     except vloop.Deadlock as e:
         res["deadlock"] = str(e)
-    info = dict(mode=mode, stop_at=stop_at, mode_at=mode_at)
+    info = dict(mode=mode, stop_at=stop_at, mode_at=mode_at, reassigned=reassign)
     src.note({**info, **{k: v for k, v in res.items() if k != "left"}})
     ok = bool(res.get("stop_returned")) and "deadlock" not in res
     if src.twin:
@@ -259,6 +263,9 @@ def s1_group(src, static_member):
     stop_at = [0.004, 0.012, 0.05, 0.31, 0.33, 0.45, 0.9][src.choice("stop_at", 7)]
     mode_at = [0.0, 0.2, 0.32][src.choice("mode_at", 3)]
     autocommit = src.flag("auto_commit")
+    # one coordinator reply that a rebalance in progress legitimately produces, given to A's first such request
+    # ... SyncGroup of the first join / SyncGroup of the re-join caused by B / first Heartbeat (JoinGroup never gets 27)
+    gfault = [None, (14, 27, 1), (14, 27, 2), (12, 27, 1)][src.choice("rebalance_in_progress_reply_to", 4)]
     cfg = {"member": {"auto_commit": autocommit, "auto_commit_interval_ms": 150, "assignors": ["roundrobin"],
                       "group_instance_id": "static-A" if static_member else None},
            "versions": {11: (0, 5), 14: (0, 3)} if static_member else None}
@@ -267,6 +274,15 @@ def s1_group(src, static_member):
     async def scenario(run, loop):
         a = run.member("A")
         b = run.member("B", group_instance_id=None)
+        used = []
+
+        def fault_fn(cluster, node, req, entry):
+            if gfault and entry["client"] == "A" and req.API_KEY == gfault[0]:
+                used.append(1)
+                if len(used) == gfault[2]:
+                    return ("error", gfault[1])
+            return None
+        run.cluster.fault_fn = fault_fn
         await a.start()
         t0 = loop.time()
         loop.call_later(0.3, lambda: asyncio.ensure_future(b.start()))  # rebalance around 0.3
@@ -290,6 +306,12 @@ def s1_group(src, static_member):
         run.res["conns"] = [c.host for c in run.cluster.conns if c.client_id == "A" and c.connected()]
         run.res["leave"] = [x for x in run.cluster.arrivals if x["req"]["api"] == "LeaveGroup" and x["client"] == "A"
                             and x["reply_obj"] is not None]
+        # member ids the coordinator registered for A (successful JoinGroup replies) that are still group members
+        mine = {x["reply_obj"].member_id for x in run.cluster.arrivals
+                if x["req"]["api"] == "JoinGroup" and x["client"] == "A" and x["reply_obj"] is not None
+                and x["reply_obj"].error_code == 0}
+        grp = run.cluster.groups.get("g")
+        run.res["still_members"] = sorted(mine & set(grp.members)) if grp is not None else []
         try:
             await asyncio.wait_for(a.consumer.getone(), timeout=10)
             run.res["late"] = "returned"
@@ -314,7 +336,7 @@ def s1_group(src, static_member):
     out = groupsim.run_group(src, cfg, scenario, max_vtime=400)
     run = out["run"]
     res = getattr(run, "res", {})
-    info = dict(mode=mode, stop_at=stop_at, mode_at=mode_at, auto_commit=autocommit, static=static_member)
+    info = dict(mode=mode, stop_at=stop_at, mode_at=mode_at, auto_commit=autocommit, static=static_member, group_fault=str(gfault))
     src.note({**info, **{k: v for k, v in res.items() if k not in ("left", "leave")}})
     ok = bool(res.get("stop_returned")) and "deadlock" not in out
     if src.twin:
@@ -336,6 +358,10 @@ def s1_group(src, static_member):
             src.check(not res["leave"], "a static member sent LeaveGroup on stop()", **info)
         elif res["had_generation"]:
             src.check(bool(res["leave"]), "member with a generation stopped on a healthy cluster without leaving the group", **info)
+        if not static_member:
+            src.check(not res.get("still_members"),
+                      "after stop() on a healthy cluster the coordinator still holds a member it registered for this consumer",
+                      members=res.get("still_members"), **info)
 
 
 # ------------------------------------------------------------------------------------------ connection timers
